@@ -396,6 +396,34 @@ pub fn run(cat: &Catalog, cfg: &Config, stats: &mut Stats, run_seed: u64) -> Vec
         }
     }
 
+    // C12: counts of 2^20 and more (the zig-zag count needs four bytes) - a megabyte of one-byte items
+    // written by one container in either size form and read as another
+    if focus == "C12" && sw.chance(1, 1000) {
+        let srcs = ["m.Vec<bool>", "m.LinkedList<bool>", "m.Streamed<bool>", "m.SliceOf<bool>", "m.RcSlice<bool>"];
+        let dsts = ["m.Vec<bool>", "m.LinkedList<bool>", "m.BTreeSet<bool>", "m.Streamed<bool>", "m.Array2<bool>"];
+        if let (Some(s_e), Some(d_e)) = (cat.by_name(*sw.pick(&srcs)), cat.by_name(*sw.pick(&dsts))) {
+            let n = *sw.pick(&[(1usize << 20) - 1, 1 << 20, (1 << 20) + 1, 3 << 19]);
+            let val = Val::Seq((0..n).map(|i| Val::Bool(i % 3 == 0)).collect());
+            if let Outcome::Ok(mut bytes) = contain(u64::MAX, || (s_e.encode)(&val)).0 {
+                let exp = evo.convert(&s_e.ty, &d_e.ty, &val);
+                bytes.push(0x5a);
+                run.stats.count("probe.container_matrix_megabyte_case");
+                let mut c = Case::new("C12", "script", d_e.name, bytes);
+                c.enc_len = c.input.len();
+                c.batch = vec![(d_e.name.to_string(), expectation(&exp))];
+                if exp.is_ok() {
+                    c.batch.push(("u8".to_string(), "ok:U(90)".to_string()));
+                } else {
+                    c.check_rem = false;
+                }
+                c.fault = format!("{n} items: {} written -> read as {}", s_e.name, d_e.name);
+                c.fault_kind = "P-cont".into();
+                run.trace.push(format!("a node writes {n} booleans as {}; another reads them as {}", s_e.name, d_e.name));
+                run.submit(c);
+            }
+        }
+    }
+
     // ---- events --------------------------------------------------------------------------------
     for _ in 0..nevents {
         run.stats.events += 1;
@@ -424,7 +452,11 @@ pub fn run(cat: &Catalog, cfg: &Config, stats: &mut Stats, run_seed: u64) -> Vec
                 match form {
                     0 => items.push(mk(fi, &mut wl)),
                     1 => {
-                        items.push(sib("u16", &mut wl));
+                        // in front of the record: a plain number, or (real writer only - the peer
+                        // encodes item by item) a hand-written evolved record full of deduplicated
+                        // strings, read with the same definition at every release
+                        let first = if peer { "u16" } else { *sc.pick(&["u16", "u16", "Ticket", "Tagged", "Tagged2", "Archive"]) };
+                        items.push(sib(first, &mut wl));
                         items.push(mk(fi, &mut wl));
                         items.push(sib("String", &mut wl));
                     }
